@@ -273,7 +273,7 @@ func c01FamilyReplay(raw json.RawMessage) string {
 	if len(text) <= 70000 && c.Limit == 0 && d > 5*time.Second {
 		return fmt.Sprintf("%d bytes took %v", len(text), d)
 	}
-	if c.Limit > 0 && d > 3*time.Second {
+	if c.Limit != 0 && d > 3*time.Second {
 		return fmt.Sprintf("%d bytes under limit %d took %v", len(text), c.Limit, d)
 	}
 	return ""
@@ -299,7 +299,7 @@ func TestC01(t *testing.T) {
 	r := kit.New(t, "C01")
 	defer r.Finish()
 	r.SetRule("inputs: (a) random byte soups of lexical fragments incl. invalid UTF-8, truncated anywhere; (b) every byte-prefix and every single-byte deletion of the repository's example documents and of generated documents; " +
-		"(c) every string of length <= L over the 13-symbol hostile alphabet {\" \\ u 0 . - e # LF CR 0xEF 0xBB {}; (d) 25 size-parametrised adversarial families (nesting, floods, long lexemes) up to 64 KiB without limit and up to 8 MiB under finite limits, with wall-time growth ratios. " +
+		"(c) every string of length <= L over the 13-symbol hostile alphabet {\" \\ u 0 . - e # LF CR 0xEF 0xBB {}; (d) 25 size-parametrised adversarial families (nesting, floods, long lexemes) up to 64 KiB without limit and up to 8 MiB under the finite limits {-1, 1, 10, 1000, 100000}, with wall-time growth ratios. " +
 		"Each input goes through Lexer.ReadToken to the end, ParseQuery, ParseSchema, ParseSchemas (two sources) and the three limited entry points at limits {0,1,2,k-1,k,k+1,2^40,-1}. " +
 		"oracle: no panic/hang/death; (doc,nil) xor error; every syntax error has line within the input and 1 <= column <= line length + 1. non-trivial = non-empty input with >= 2 tokens or a lexical failure after the first token/byte; distinct by input")
 	r.Assume("time bounds are wall-clock minima of three runs with wide margins (ratio <= 8 per doubling once above 20 ms; 64 KiB within 5 s; limited parses within 3 s)")
@@ -352,7 +352,7 @@ func TestC01(t *testing.T) {
 			}
 			prev = d
 		}
-		for _, limit := range []int{1, 10, 1000, 100000} {
+		for _, limit := range []int{-1, 1, 10, 1000, 100000} { // (a negative limit is a finite limit: exceeded at once)
 			for _, size := range []int{1 << 20, maxLimited} {
 				c := c01FamilyCase{Family: fam, N: int(float64(size) / per), Limit: limit}
 				writeInflight("C01", "family", c)
